@@ -59,13 +59,18 @@ Proof.
   intros Hc H. apply is_sing_true. assert (Rabs x = 1) by (destruct H as [-> | ->]; unfold Rabs; destruct (Rcase_abs _); lra).
   replace (Rabs x - 1) with 0 by lra. rewrite Rabs_R0. pose proof eps_pos. nra.
 Qed.
-Lemma asin_py_some x : -1 <= x <= 1 -> asin_py Rops x = Some (asin x).
+Lemma clip1_in x : -1 <= x <= 1 -> clip1 Rops x = x.
 Proof.
-  intros H. unfold asin_py. sm_simpl. unfold Rltb. destruct (Rlt_dec 1 (Rabs x)) as [L|L]; [|reflexivity].
-  exfalso. assert (Rabs x <= 1) by (apply Rabs_le; lra). lra.
+  intros H. unfold clip1. sm_simpl. unfold Rltb.
+  repeat match goal with |- context[Rlt_dec ?a ?b] => destruct (Rlt_dec a b) end; try lra; reflexivity.
 Qed.
-Lemma asin_py_inv x a : asin_py Rops x = Some a -> a = asin x.
-Proof. unfold asin_py. sm_simpl. destruct (Rltb 1 (Rabs x)); congruence. Qed.
+Lemma clip1_range x : -1 <= clip1 Rops x <= 1.
+Proof.
+  unfold clip1. sm_simpl. unfold Rltb.
+  repeat match goal with |- context[Rlt_dec ?a ?b] => destruct (Rlt_dec a b) end; lra.
+Qed.
+Lemma asin_clip_in x : -1 <= x <= 1 -> asin_clip Rops x = asin x.
+Proof. intros H. unfold asin_clip. rewrite clip1_in by assumption. reflexivity. Qed.
 
 (* rows/columns of a rotation matrix have entries in [-1,1] *)
 Lemma sumsq0 a b : a*a + b*b = 0 -> a = 0 /\ b = 0.
@@ -140,25 +145,24 @@ Proof.
 Qed.
 
 (* RIGHT INVERSE off the singular band, whichever formula argmax selects *)
-Theorem tr2rpy_zyx_right_inverse c (M : M33 R) a :
+Theorem tr2rpy_zyx_right_inverse c (M : M33 R) :
   SO3 M -> 0 < c -> (let '((r00,r01,r02),(r10,r11,r12),(r20,r21,r22)) := M in is_sing Rops c r20 = false) ->
-  tr2rpy_zyx Rops c M = Some a -> rpy2r_zyx_ref Rops a = M.
+  rpy2r_zyx_ref Rops (tr2rpy_zyx Rops c M) = M.
 Proof.
-  intros H Hc Hs E. pose proof (so3_nonsing_zyx c M H Hc Hs) as Hns.
+  intros H Hc Hs. pose proof (so3_nonsing_zyx c M H Hc Hs) as Hns.
   pose proof (nonsing_den_zyx M H Hns) as Hd.
   pose proof (rpy_zyx_ns_right_inverse M _ H Hns Hd) as RI.
-  destruct M as [[[[r00 r01] r02] [[r10 r11] r12]] [[r20 r21] r22]]. unfold tr2rpy_zyx in E. rewrite Hs in E.
-  injection E as <-. exact RI.
+  destruct M as [[[[r00 r01] r02] [[r10 r11] r12]] [[r20 r21] r22]]. unfold tr2rpy_zyx. rewrite Hs. exact RI.
 Qed.
 
 (* EXACT singular configuration (pitch = +-90 deg): reconstruction is exact, roll = 0 *)
 Theorem tr2rpy_zyx_singular_exact c (M : M33 R) :
   SO3 M -> 0 < c -> (let '((r00,r01,r02),(r10,r11,r12),(r20,r21,r22)) := M in r20 = 1 \/ r20 = -1) ->
-  exists p y, tr2rpy_zyx Rops c M = Some (0, p, y) /\ rpy2r_zyx_ref Rops (0, p, y) = M.
+  exists p y, tr2rpy_zyx Rops c M = (0, p, y) /\ rpy2r_zyx_ref Rops (0, p, y) = M.
 Proof.
   intros H Hc. destruct M as [[[[r00 r01] r02] [[r10 r11] r12]] [[r20 r21] r22]]. intros Hpm.
   unfold tr2rpy_zyx. rewrite (sing_pm1 c r20 Hc Hpm). unfold rpy_zyx_sing.
-  rewrite asin_py_some by (destruct Hpm; lra).
+  rewrite asin_clip_in by (destruct Hpm; lra).
   eexists _, _. split; [reflexivity|].
   pose proof H as H'. so3_facts H'.
   assert (Z1 : r00 = 0 /\ r10 = 0) by (apply sumsq0; destruct Hpm; subst r20; lra).
@@ -174,21 +178,14 @@ Proof.
   - rewrite cos_neg, sin_neg, cos_atan2, sin_atan2 by lra. rewrite N, sqrt_1. lin_simpl. tuple_eq ltac:(try (field_simplify; nra)).
 Qed.
 
-(* tr2rpy never raises on an exact rotation matrix *)
-Theorem tr2rpy_zyx_total c (M : M33 R) : SO3 M -> exists a, tr2rpy_zyx Rops c M = Some a.
-Proof.
-  intros H. destruct M as [[[[r00 r01] r02] [[r10 r11] r12]] [[r20 r21] r22]]. unfold tr2rpy_zyx.
-  destruct (is_sing Rops c r20); [|eexists; reflexivity]. unfold rpy_zyx_sing.
-  so3_facts H. rewrite asin_py_some by (apply (sq_le1 r20 (r21*r21+r22*r22)); [lra|clear; nra]). eexists; reflexivity.
-Qed.
 
 (* ranges: for EVERY matrix (rotation or not) and every threshold *)
 Theorem tr2rpy_zyx_range c (M : M33 R) r p y :
-  tr2rpy_zyx Rops c M = Some (r, p, y) -> Rabs r <= PI /\ Rabs p <= PI/2 /\ Rabs y <= PI.
+  tr2rpy_zyx Rops c M = (r, p, y) -> Rabs r <= PI /\ Rabs p <= PI/2 /\ Rabs y <= PI.
 Proof.
   destruct M as [[[[r00 r01] r02] [[r10 r11] r12]] [[r20 r21] r22]]. unfold tr2rpy_zyx.
   destruct (is_sing Rops c r20).
-  - unfold rpy_zyx_sing. destruct (asin_py Rops r20) as [a|] eqn:E; [|discriminate]. apply asin_py_inv in E. subst a.
+  - unfold rpy_zyx_sing, asin_clip.
     sm_simpl. intros I. injection I as <- <- <-. rewrite Rabs_R0. pose proof PI_RGT_0.
     split; [lra|]. split; [rewrite Rabs_Ropp; apply asin_abs_le|].
     destruct (Rltb r20 0); [rewrite Rabs_Ropp|]; apply atan2_abs_le_PI.
@@ -256,24 +253,23 @@ Proof.
   destruct (Req_dec r00 0) as [->|]; [|tauto]. destruct (Req_dec r01 0) as [->|]; [|tauto]. exfalso. lra.
 Qed.
 
-Theorem tr2rpy_xyz_right_inverse c (M : M33 R) a :
+Theorem tr2rpy_xyz_right_inverse c (M : M33 R) :
   SO3 M -> 0 < c -> (let '((r00,r01,r02),(r10,r11,r12),(r20,r21,r22)) := M in is_sing Rops c r02 = false) ->
-  tr2rpy_xyz Rops c M = Some a -> rpy2r_xyz_ref Rops a = M.
+  rpy2r_xyz_ref Rops (tr2rpy_xyz Rops c M) = M.
 Proof.
-  intros H Hc Hs E. pose proof (so3_nonsing_xyz c M H Hc Hs) as Hns.
+  intros H Hc Hs. pose proof (so3_nonsing_xyz c M H Hc Hs) as Hns.
   pose proof (nonsing_den_xyz M H Hns) as Hd.
   pose proof (rpy_xyz_ns_right_inverse M _ H Hns Hd) as RI.
-  destruct M as [[[[r00 r01] r02] [[r10 r11] r12]] [[r20 r21] r22]]. unfold tr2rpy_xyz in E. rewrite Hs in E.
-  injection E as <-. exact RI.
+  destruct M as [[[[r00 r01] r02] [[r10 r11] r12]] [[r20 r21] r22]]. unfold tr2rpy_xyz. rewrite Hs. exact RI.
 Qed.
 
 Theorem tr2rpy_xyz_singular_exact c (M : M33 R) :
   SO3 M -> 0 < c -> (let '((r00,r01,r02),(r10,r11,r12),(r20,r21,r22)) := M in r02 = 1 \/ r02 = -1) ->
-  exists p y, tr2rpy_xyz Rops c M = Some (0, p, y) /\ rpy2r_xyz_ref Rops (0, p, y) = M.
+  exists p y, tr2rpy_xyz Rops c M = (0, p, y) /\ rpy2r_xyz_ref Rops (0, p, y) = M.
 Proof.
   intros H Hc. destruct M as [[[[r00 r01] r02] [[r10 r11] r12]] [[r20 r21] r22]]. intros Hpm.
   unfold tr2rpy_xyz. rewrite (sing_pm1 c r02 Hc Hpm). unfold rpy_xyz_sing.
-  rewrite asin_py_some by (destruct Hpm; lra).
+  rewrite asin_clip_in by (destruct Hpm; lra).
   eexists _, _. split; [reflexivity|].
   pose proof H as H'. so3_facts H'.
   assert (Z1 : r00 = 0 /\ r01 = 0) by (apply sumsq0; destruct Hpm; subst r02; lra).
@@ -289,19 +285,13 @@ Proof.
   - rewrite cos_neg, sin_neg, cos_atan2, sin_atan2 by lra. rewrite N', sqrt_1. lin_simpl. tuple_eq ltac:(try (field_simplify; nra)).
 Qed.
 
-Theorem tr2rpy_xyz_total c (M : M33 R) : SO3 M -> exists a, tr2rpy_xyz Rops c M = Some a.
-Proof.
-  intros H. destruct M as [[[[r00 r01] r02] [[r10 r11] r12]] [[r20 r21] r22]]. unfold tr2rpy_xyz.
-  destruct (is_sing Rops c r02); [|eexists; reflexivity]. unfold rpy_xyz_sing.
-  so3_facts H. rewrite asin_py_some by (apply (sq_le1 r02 (r00*r00+r01*r01)); [lra|clear; nra]). eexists; reflexivity.
-Qed.
 
 Theorem tr2rpy_xyz_range c (M : M33 R) r p y :
-  tr2rpy_xyz Rops c M = Some (r, p, y) -> Rabs r <= PI /\ Rabs p <= PI/2 /\ Rabs y <= PI.
+  tr2rpy_xyz Rops c M = (r, p, y) -> Rabs r <= PI /\ Rabs p <= PI/2 /\ Rabs y <= PI.
 Proof.
   destruct M as [[[[r00 r01] r02] [[r10 r11] r12]] [[r20 r21] r22]]. unfold tr2rpy_xyz.
   destruct (is_sing Rops c r02).
-  - unfold rpy_xyz_sing. destruct (asin_py Rops r02) as [a|] eqn:E; [|discriminate]. apply asin_py_inv in E. subst a.
+  - unfold rpy_xyz_sing, asin_clip.
     sm_simpl. intros I. injection I as <- <- <-. rewrite Rabs_R0. pose proof PI_RGT_0.
     split; [lra|]. split; [apply asin_abs_le|].
     destruct (Rltb 0 r02); [|rewrite Rabs_Ropp]; apply atan2_abs_le_PI.
@@ -363,24 +353,23 @@ Proof.
   destruct (Req_dec r10 0) as [->|]; [|tauto]. destruct (Req_dec r11 0) as [->|]; [|tauto]. exfalso. lra.
 Qed.
 
-Theorem tr2rpy_yxz_right_inverse c (M : M33 R) a :
+Theorem tr2rpy_yxz_right_inverse c (M : M33 R) :
   SO3 M -> 0 < c -> (let '((r00,r01,r02),(r10,r11,r12),(r20,r21,r22)) := M in is_sing Rops c r12 = false) ->
-  tr2rpy_yxz Rops c M = Some a -> rpy2r_yxz_ref Rops a = M.
+  rpy2r_yxz_ref Rops (tr2rpy_yxz Rops c M) = M.
 Proof.
-  intros H Hc Hs E. pose proof (so3_nonsing_yxz c M H Hc Hs) as Hns.
+  intros H Hc Hs. pose proof (so3_nonsing_yxz c M H Hc Hs) as Hns.
   pose proof (nonsing_den_yxz M H Hns) as Hd.
   pose proof (rpy_yxz_ns_right_inverse M _ H Hns Hd) as RI.
-  destruct M as [[[[r00 r01] r02] [[r10 r11] r12]] [[r20 r21] r22]]. unfold tr2rpy_yxz in E. rewrite Hs in E.
-  injection E as <-. exact RI.
+  destruct M as [[[[r00 r01] r02] [[r10 r11] r12]] [[r20 r21] r22]]. unfold tr2rpy_yxz. rewrite Hs. exact RI.
 Qed.
 
 Theorem tr2rpy_yxz_singular_exact c (M : M33 R) :
   SO3 M -> 0 < c -> (let '((r00,r01,r02),(r10,r11,r12),(r20,r21,r22)) := M in r12 = 1 \/ r12 = -1) ->
-  exists p y, tr2rpy_yxz Rops c M = Some (0, p, y) /\ rpy2r_yxz_ref Rops (0, p, y) = M.
+  exists p y, tr2rpy_yxz Rops c M = (0, p, y) /\ rpy2r_yxz_ref Rops (0, p, y) = M.
 Proof.
   intros H Hc. destruct M as [[[[r00 r01] r02] [[r10 r11] r12]] [[r20 r21] r22]]. intros Hpm.
   unfold tr2rpy_yxz. rewrite (sing_pm1 c r12 Hc Hpm). unfold rpy_yxz_sing.
-  rewrite asin_py_some by (destruct Hpm; lra).
+  rewrite asin_clip_in by (destruct Hpm; lra).
   eexists _, _. split; [reflexivity|].
   pose proof H as H'. so3_facts H'.
   assert (Z1 : r10 = 0 /\ r11 = 0) by (apply sumsq0; destruct Hpm; subst r12; lra).
@@ -396,19 +385,13 @@ Proof.
   - rewrite cos_neg, sin_neg, cos_atan2, sin_atan2 by lra. rewrite N, sqrt_1. lin_simpl. tuple_eq ltac:(try (field_simplify; nra)).
 Qed.
 
-Theorem tr2rpy_yxz_total c (M : M33 R) : SO3 M -> exists a, tr2rpy_yxz Rops c M = Some a.
-Proof.
-  intros H. destruct M as [[[[r00 r01] r02] [[r10 r11] r12]] [[r20 r21] r22]]. unfold tr2rpy_yxz.
-  destruct (is_sing Rops c r12); [|eexists; reflexivity]. unfold rpy_yxz_sing.
-  so3_facts H. rewrite asin_py_some by (apply (sq_le1 r12 (r10*r10+r11*r11)); [lra|clear; nra]). eexists; reflexivity.
-Qed.
 
 Theorem tr2rpy_yxz_range c (M : M33 R) r p y :
-  tr2rpy_yxz Rops c M = Some (r, p, y) -> Rabs r <= PI /\ Rabs p <= PI/2 /\ Rabs y <= PI.
+  tr2rpy_yxz Rops c M = (r, p, y) -> Rabs r <= PI /\ Rabs p <= PI/2 /\ Rabs y <= PI.
 Proof.
   destruct M as [[[[r00 r01] r02] [[r10 r11] r12]] [[r20 r21] r22]]. unfold tr2rpy_yxz.
   destruct (is_sing Rops c r12).
-  - unfold rpy_yxz_sing. destruct (asin_py Rops r12) as [a|] eqn:E; [|discriminate]. apply asin_py_inv in E. subst a.
+  - unfold rpy_yxz_sing, asin_clip.
     sm_simpl. intros I. injection I as <- <- <-. rewrite Rabs_R0. pose proof PI_RGT_0.
     split; [lra|]. split; [rewrite Rabs_Ropp; apply asin_abs_le|].
     destruct (Rltb r12 0); [rewrite Rabs_Ropp|]; apply atan2_abs_le_PI.
@@ -542,3 +525,8 @@ Theorem scale_unit_deg (a : V3 R) :
 Proof. destruct a as [[a0 a1] a2]. unfold scale_unit, to_deg. sm_simpl. reflexivity. Qed.
 Theorem theta2_deg (A : M22 R) : theta2 Rops true A = theta2 Rops false A * (180/PI).
 Proof. destruct A as [[a00 a01] [a10 a11]]. unfold theta2, to_deg. sm_simpl. ring. Qed.
+Theorem tr2xyt_deg (A : M33 R) :
+  tr2xyt Rops true A = let '(x,y,t) := tr2xyt Rops false A in (x, y, t * (180/PI)).
+Proof.
+  destruct A as [[[[a00 a01] a02] [[a10 a11] a12]] [[a20 a21] a22]]. unfold tr2xyt, to_deg. sm_simpl. reflexivity.
+Qed.
